@@ -453,6 +453,11 @@ fn access_step<X: Transport>(c: &mut Case, t: &mut X, st: &Rc<RefCell<VState>>, 
     if !foreign.is_empty() {
         c.fail(format!("{}: config access touched something else: {}", op, foreign.join(" ")));
     }
+    if op.contains("kind=mmio") && align > 4 && !acc.is_empty() {
+        // virtio-mmio guarantees 4-byte alignment of the configuration space and 32-bit accesses; a type that
+        // needs 8-byte alignment (a 64-bit field read in one piece) is refused, not performed as a 64-bit access
+        c.fail(format!("{}: a type of alignment {} was accessed in the configuration space of an MMIO device ({}): 64-bit fields are two 32-bit accesses", op, align, acc_str));
+    }
     let inside = present && off.checked_add(size).map(|e| e <= win_len).unwrap_or(false);
     match &r {
         Ok(Ok(bytes)) => {
